@@ -49,8 +49,27 @@ def lattice_input(rng: random.Random, inverted_repeat: bool = False):
         refs.append({"id": rid, "len": (xs[-1] + STEP * rng.randint(1, 50)) * 10, "x": [v * 10 for v in xs], "bp": xs})
     qrys = []
     qid = 10
+    longrefs = list(refs)
+    # short contigs only a few kb longer than the molecule cut from them (the molecule starts at the contig's first label
+    # and leaves one spare label at the end): the seeding correlation has a handful of lags, and on the wrong strand its
+    # maximum lies on the border in about a quarter of the cases (find_peaks reports no peak there)
+    for cid, q0 in ((12, 2), (13, 4)):
+        n = rng.randint(14, 24)
+        x = STEP * rng.randint(1, 3)
+        xs = []
+        for _ in range(n):
+            xs.append(x)
+            x += STEP * (2 + min(int(rng.expovariate(1 / 4.5)), 30))
+        refs.append({"id": cid, "len": (xs[-1] + STEP * rng.randint(0, 2) + 1) * 10, "x": [v * 10 for v in xs], "bp": xs})
+        labs = [v - xs[0] for v in xs[:n - 1]]
+        total = labs[-1] + 1
+        mir = sorted(labs[-1] - v for v in labs)
+        qrys.append({"id": q0, "len": total * 10, "x": [v * 10 for v in labs], "kind": "shortcontig", "ref": cid,
+                     "mirrored": False})
+        qrys.append({"id": q0 + 1, "len": total * 10, "x": [v * 10 for v in mir], "kind": "shortcontigm", "ref": cid,
+                     "mirrored": True})
     for k in range(6):
-        ref = rng.choice(refs)
+        ref = rng.choice(longrefs)
         xs = ref["bp"]
         w = rng.randint(14, 40)
         w0 = rng.randint(3, len(xs) - w - 3)
